@@ -44,6 +44,9 @@ PROP = "C12"
 DEBUG = [DebugTrail.DISABLE, DebugTrail.FIRST, DebugTrail.ALL]
 GRACE = float(os.environ.get("C12_GRACE", "3.0"))
 MAX_STEPS = 60_000
+# sys.monitoring (local LINE events on the traced code objects only) is ~2x faster than sys.settrace; both engines
+# are cross-checked against each other at the start of every shard
+ENGINE = os.environ.get("C12_ENGINE") or ("monitoring" if hasattr(sys, "monitoring") else "settrace")
 MAX_HANGS_PER_PROCESS = 2
 
 # ----------------------------------------------------------------------------------- what is traced
@@ -205,7 +208,7 @@ class Fam:
         self._dump: dict[str, list] = {}
         for tk in type_keys(name):
             wrap, base = _split(tk)
-            self.hints[tk] = eval(tk.replace("Dict[str,", "Dict[str, "), self.ns)  # noqa: S307
+            self.hints[tk] = eval(tk, self.ns)  # noqa: S307
             good0, good1, bad0, bad1 = spec["load"][base]
             objs = [eval(src, self.ns) for src in spec["dump"][base]]  # noqa: S307
             if wrap == "":
@@ -366,15 +369,19 @@ def _shared_roots(retort) -> list:
 
 def _open_stub_owner(frame, stubs) -> bool:
     """Does the frame chain contain a request-bus ``send`` whose recursion resolver still owns one of ``stubs``
-    (created, not yet bound)?  ``stubs=None``: any open stub counts."""
+    (created, not yet bound), or a ``set_func`` that is about to bind one?  ``stubs=None``: any open stub counts."""
     while frame is not None:
         code = frame.f_code
-        if code.co_name == "send" and code.co_filename in TRACED:
-            bus = frame.f_locals.get("self")
-            resolver = getattr(bus, "_recursion_resolver", None)
-            table = getattr(resolver, "_loc_to_stub", None)
-            if table:
-                if stubs is None or any(s is t for s in stubs for t in table.values()):
+        if code.co_filename in TRACED:
+            if code.co_name == "send":
+                bus = frame.f_locals.get("self")
+                resolver = getattr(bus, "_recursion_resolver", None)
+                table = getattr(resolver, "_loc_to_stub", None)
+                if table and (stubs is None or any(s is t for s in stubs for t in table.values())):
+                    return True
+            elif code.co_name == "set_func":
+                me = frame.f_locals.get("self")
+                if stubs is None or any(s is me for s in stubs):
                     return True
         frame = frame.f_back
     return False
@@ -389,9 +396,15 @@ def _in_request(frame) -> bool:
 
 
 def _where(frame) -> str:
-    if frame is None:
-        return "none"
-    return f"{os.path.basename(frame.f_code.co_filename)}:{frame.f_code.co_name}"
+    """Landmark of a parked thread: the nearest enclosing *conflict function* (``file.py:function``) of the yield
+    point where it was stopped -- e.g. a thread stopped in ``route_handler`` called from ``_send_inner`` called
+    from ``RecursiveRequestBus.send`` is reported as ``request_bus.py:send``."""
+    while frame is not None:
+        code = frame.f_code
+        if code.co_filename in TRACED and code.co_name in CONFLICT_FUNCS:
+            return f"{os.path.basename(code.co_filename)}:{code.co_name}"
+        frame = frame.f_back
+    return "none"
 
 
 def diagnose(retort, sched: Optional[Scheduler], me: int, nthreads: int, roots=None):
@@ -461,7 +474,7 @@ def _validate(case):
                 raise env.HarnessError(f"bad op {op!r}")
 
 
-def execute(case, *, record=False, grace=GRACE) -> Report:  # noqa: C901
+def execute(case, *, record=False, grace=GRACE, engine=None) -> Report:  # noqa: C901
     _validate(case)
     f = fam(case["family"])
     debug, strict = case["debug"], case["strict"]
@@ -517,7 +530,7 @@ def execute(case, *, record=False, grace=GRACE) -> Report:  # noqa: C901
                 "cache": len(retort._call_cache)}
 
     sched = Scheduler([body] * n, case["sched"], traced_files=TRACED, no_yield=NO_YIELD, grace=grace,
-                      max_steps=MAX_STEPS, record=record, on_switch=on_switch)
+                      max_steps=MAX_STEPS, record=record, on_switch=on_switch, engine=engine or ENGINE)
     res = sched.run()
     rep.sched_result = res
     rep.status = res.status
@@ -622,9 +635,10 @@ def evaluate(ctx: runner.Ctx, case, rep: Report):  # noqa: C901, PLR0912, PLR091
     if rep.fallbacks:
         ctx.count("runs_with_liveness_fallback")
         if diffs:
-            # the run was not a pure function of the schedule: demand that the differences reproduce
+            # a thread was blocked for real during this run, so the run was not strictly a pure function of the
+            # schedule: demand that the same differences show up in a second run of the same case
             rep2 = execute(case)
-            if rep2.status != "ok" or rep2.fallbacks or \
+            if rep2.status != "ok" or \
                     {(r.phase, r.thread, r.what, r.tk, r.di) for r in rep2.diffs()} != \
                     {(r.phase, r.thread, r.what, r.tk, r.di) for r in diffs}:
                 ctx.count("inconclusive_not_reproducible_after_fallback")
@@ -632,16 +646,18 @@ def evaluate(ctx: runner.Ctx, case, rep: Report):  # noqa: C901, PLR0912, PLR091
             rep, diffs = rep2, rep2.diffs()
 
     fired = [sw for sw in rep.switches]
-    in_window = [sw for sw in fired if sw.info["in_request"] and sw.info["cache"] > 0]
+    in_request = [sw for sw in fired if sw.info["in_request"]]
+    in_window = [sw for sw in in_request if sw.info["cache"] > 0]
     stub_open = [sw for sw in fired if sw.info["stub_open"]]
-    nontrivial = bool(in_window)
-    f = FAMILIES[case["family"]]
+    nontrivial = bool(in_request)
     recursive = case["family"] != "plain"
     immediate = any(op[0] in ("load", "dump") or op[2] for ops in case["threads"] for op in ops)
     labels = [f"family:{case['family']}", f"threads:{n}", f"switches:{min(len(fired), 5)}",
               f"debug:{case['debug']}", "calls:immediate" if immediate else "calls:deferred_only"]
+    if in_request:
+        labels.append("preempted_inside_creation_request")
     if in_window:
-        labels.append("preempted_after_cache_write_in_request")
+        labels.append("preempted_after_shared_cache_write")
     if stub_open:
         labels.append("preempted_with_open_stub")
     kinds = {op[0] for ops in case["threads"] for op in ops}
@@ -651,7 +667,6 @@ def evaluate(ctx: runner.Ctx, case, rep: Report):  # noqa: C901, PLR0912, PLR091
         labels.append("mix:different_types")
     if stub_open and not immediate and recursive:
         ctx.count("excluded_known")  # an open-stub preemption whose known consequence is avoided by construction
-    del f
 
     known_hit = False
     for r in diffs:
@@ -804,40 +819,63 @@ def st_case(draw):
 
 
 # ----------------------------------------------------------------------------------- exploration
+def _prios(name):
+    """Thread orders worth sweeping: the reversed order only when the threads differ."""
+    threads = PROGRAMS[name][1]
+    n = len(threads)
+    fwd = tuple(range(n))
+    if all(t == threads[0] for t in threads):
+        return [fwd]
+    out = [fwd, tuple(reversed(fwd))]
+    if n == 3:
+        out.append((1, 2, 0))
+    return out
+
+
+QUICK_CONFLICT = ["tree_load3", "tree_dump2", "tree_load_vs_dump", "tree_model_vs_list",
+                  "tree_get_vs_load", "mutual_ends", "mutual_same", "chain_opt_vs_model",
+                  "dictrec_load2", "plain_load2", "tree_deferred3", "tree_deferred_both",
+                  "mutual_deferred_ends", "chain_deferred2", "dictrec_deferred2", "btree_deferred2"]
+THOROUGH_ALL = ["tree_load2", "tree_load3", "tree_dump2", "tree_load_vs_dump", "tree_model_vs_list",
+                "tree_get_vs_load", "mutual_ends", "mutual_same", "chain_opt_vs_model", "btree_load2",
+                "dictrec_load2", "plain_load2", "tree_deferred2", "tree_deferred_both", "mutual_deferred_ends",
+                "chain_deferred2"]
+
+
 # (program, prio, debug, strict, "all" | "conflict")
 def _sweeps(tier):
     out = []
     if tier == "quick":
         out.append(("tree_load2", (0, 1), 2, True, "all"))
-        out.append(("mutual_deferred_ends", (0, 1), 2, True, "all"))
-        for name in sorted(PROGRAMS):
-            n = len(PROGRAMS[name][1])
-            out.append((name, tuple(range(n)), 2, True, "conflict"))
-            out.append((name, tuple(reversed(range(n))), 2, True, "conflict"))
+        out.append(("tree_deferred2", (0, 1), 2, True, "all"))
+        for name in QUICK_CONFLICT:
+            for prio in _prios(name)[:2]:
+                out.append((name, prio, 2, True, "conflict"))
         out.append(("tree_load2", (0, 1), 0, True, "conflict"))
-        out.append(("tree_load2", (0, 1), 1, False, "conflict"))
+        out.append(("tree_load_vs_dump", (0, 1), 1, False, "conflict"))
         return out
-    for name in sorted(PROGRAMS):
-        n = len(PROGRAMS[name][1])
-        out.append((name, tuple(range(n)), 2, True, "all"))
-        out.append((name, tuple(reversed(range(n))), 2, True, "all"))
-        if n == 3:
-            out.append((name, (1, 2, 0), 2, True, "all"))
-    for name in ("tree_load2", "mutual_ends", "tree_deferred_both", "tree_load_vs_dump"):
+    for name in THOROUGH_ALL:
+        for prio in _prios(name):
+            out.append((name, prio, 2, True, "all"))
+    for name in ("tree_load2", "mutual_ends"):
         out.append((name, (0, 1), 0, True, "all"))
         out.append((name, (0, 1), 1, False, "all"))
+    for name in sorted(PROGRAMS):
+        for prio in _prios(name):
+            out.append((name, prio, 2, True, "conflict"))
+            out.append((name, prio, 0, False, "conflict"))
     return out
 
 
 # (program, prio, stride over first points, stride over second points)
 def _doubles(tier):
     if tier == "quick":
-        return [("tree_load2", (0, 1), 7, 5), ("tree_deferred_both", (0, 1), 9, 7),
-                ("mutual_deferred_ends", (1, 0), 9, 7), ("tree_load_vs_dump", (0, 1), 9, 7)]
-    return [(name, prio, 1, 1)
-            for name in ("tree_load2", "tree_deferred2", "tree_deferred_both", "tree_load_vs_dump",
-                         "mutual_ends", "mutual_deferred_ends", "tree_model_vs_list", "chain_opt_vs_model")
-            for prio in ((0, 1), (1, 0))]
+        return [("tree_load2", (0, 1), 7, 5), ("tree_deferred2", (0, 1), 9, 7),
+                ("mutual_deferred_ends", (1, 0), 11, 9), ("tree_load_vs_dump", (0, 1), 9, 7)]
+    return [("tree_load2", (0, 1), 1, 1), ("tree_deferred2", (0, 1), 1, 1),
+            ("tree_load_vs_dump", (0, 1), 1, 1), ("tree_load_vs_dump", (1, 0), 1, 1),
+            ("chain_opt_vs_model", (0, 1), 1, 1), ("chain_opt_vs_model", (1, 0), 1, 1),
+            ("mutual_deferred_ends", (0, 1), 1, 2)]
 
 
 def _selfcheck(ctx):
@@ -851,9 +889,29 @@ def _selfcheck(ctx):
         raise env.HarnessError(f"only {a.total} yield points observed: tracing of the retort files does not work")
     if a.diffs:
         raise env.HarnessError("sequential (unpreempted) run differs from the reference")
+    if hasattr(sys, "monitoring"):
+        # both engines must see the same yield points (generator-expression frames excepted: settrace reports a
+        # line event per resumption, sys.monitoring one per line change)
+        logs = {}
+        for eng in ("settrace", "monitoring"):
+            rep = execute(mk_case("mutual_ends", (1, 0), []), record=True, engine=eng)
+            logs[eng] = [(t, fn, ln) for t, fn, ln in rep.log if fn != "<genexpr>"]
+        if logs["settrace"] != logs["monitoring"]:
+            raise env.HarnessError("sys.settrace and sys.monitoring engines disagree on the yield points")
+
+
+def _phase(ctx, name, t0=[None]):  # noqa: B006
+    if os.environ.get("C12_TIMING"):
+        import time  # noqa: PLC0415
+        now = time.monotonic()
+        if t0[0] is not None:
+            print(f"[C12 timing] shard {ctx.shard}: {name} done after {now - t0[0]:.1f}s, "
+                  f"{ctx.evaluations} evaluations", file=sys.stderr, flush=True)
+        t0[0] = now
 
 
 def explore(ctx: runner.Ctx):  # noqa: C901
+    _phase(ctx, "start")
     _selfcheck(ctx)
     idx = 0
     for name, prio, debug, strict, mode in _sweeps(ctx.tier):
@@ -875,6 +933,7 @@ def explore(ctx: runner.Ctx):  # noqa: C901
             ctx.mark_exhaustive(f"all {len(prof.conflict_first)} single-preemption schedules at conflict lines of "
                                 f"{name} prio={list(prio)} debug={debug} strict={strict}")
 
+    _phase(ctx, "single-preemption sweeps")
     for name, prio, stride_i, stride_j in _doubles(ctx.tier):
         base = mk_case(name, prio, [])
         prof = profile(base)
@@ -901,14 +960,16 @@ def explore(ctx: runner.Ctx):  # noqa: C901
             ctx.mark_exhaustive(f"all two-preemption schedules of {name} prio={list(prio)} with both preemption "
                                 f"points on conflict lines ({len(firsts)} first points)")
 
-    ctx.given(st_case(), lambda case: check_case(ctx, case), ctx.budget(2400, 120000))
+    _phase(ctx, "two-preemption sweeps")
+    ctx.given(st_case(), lambda case: check_case(ctx, case), ctx.budget(2000, 90000))
+    _phase(ctx, "PCT")
 
 
 RULE = ("case = (program: model family + per-thread operations on ONE fresh retort, debug_trail, strict_coercion, "
         "schedule = thread priorities + global yield indices where the running thread is preempted). Schedules: all "
         "single preemptions (exhaustive), two preemptions on conflict lines, PCT-random with 1-4 change points. "
         "Non-trivial = at least one preemption really switched threads while the preempted thread was inside a "
-        "creation request (_facade_provide on its stack) and had already written to the shared call cache; "
+        "creation request (_facade_provide on its stack), i.e. two first uses really interleave; "
         "distinct by (program, options, schedule).")
 
 
